@@ -448,6 +448,10 @@ func tokenizeSexp(s string) []string {
 // Portfolio runs all solvers in parallel on a query and returns the first definitive answer.
 // If both is set, it waits for two agreeing definitive answers (thorough tier).
 func Portfolio(query string, dir string, name string, timeout time.Duration, both bool) (SolveResult, []SolveResult) {
+	return portfolioWith(solvers, query, dir, name, timeout, both, true)
+}
+
+func portfolioWith(solvers []solverSpec, query string, dir string, name string, timeout time.Duration, both bool, allowSecond bool) (SolveResult, []SolveResult) {
 	file := filepath.Join(dir, name+".smt2")
 	if err := os.WriteFile(file, []byte(query), 0o644); err != nil {
 		return SolveResult{Status: "error", Output: err.Error()}, nil
@@ -490,7 +494,33 @@ func Portfolio(query string, dir string, name string, timeout time.Duration, bot
 	if first != nil {
 		return *first, all
 	}
-	// none definitive
+	// none definitive: second round with other quantifier-instantiation strategies (fast "unknown" answers are
+	// typically an instantiation strategy giving up, not a hard problem)
+	if allowSecond {
+		alt := []solverSpec{
+			{"z3-5.1.0/nombqi", func(f string, to time.Duration) []string {
+				return []string{"z3-new", fmt.Sprintf("-T:%d", int(to.Seconds())+1), "smt.mbqi=false", "smt.random_seed=7", f}
+			}},
+			{"z3-4.8.12/seed", func(f string, to time.Duration) []string {
+				return []string{"/usr/bin/z3", fmt.Sprintf("-T:%d", int(to.Seconds())+1), "smt.random_seed=13", "smt.qi.eager_threshold=50", f}
+			}},
+			{"cvc5-1.0/enum", func(f string, to time.Duration) []string {
+				return []string{"cvc5", "--produce-models", "--enum-inst", fmt.Sprintf("--tlimit=%d", int(to.Milliseconds())), f}
+			}},
+		}
+		var maxT float64
+		for _, r := range all {
+			if r.Time > maxT {
+				maxT = r.Time
+			}
+		}
+		if maxT < timeout.Seconds()*0.8 || true {
+			r2, all2 := portfolioWith(alt, query, dir, name+".r2", timeout, both, false)
+			if r2.Status == "unsat" || r2.Status == "sat" {
+				return r2, append(all, all2...)
+			}
+		}
+	}
 	best := SolveResult{Status: "unknown", Solver: "all"}
 	var outs []string
 	for _, r := range all {
